@@ -169,8 +169,10 @@ class Work:
         self.drivers[variant] = out
         return out
 
-    def record_mt(self, variant, name, setup_lines, thread_scripts):
-        """Run the threads; returns (list of per-thread traces composed with the setup events, stderr)."""
+    def record_mt(self, variant, name, setup_lines, thread_scripts, serial=None):
+        """Run the threads; returns (list of per-thread traces composed with the setup events, stderr).
+        serial: per-thread lists of result lines from serial runs of the same scripts; a thread whose
+        results differ from them gets a serial-mismatch observer event."""
         drv = self.driver_mt(variant)
         base = self.fresh(".mt")
         setup = base + ".setup.script"
@@ -194,6 +196,7 @@ class Work:
         setup_ev = [l for l in open(base + ".trace.setup").read().splitlines() if not l.startswith(('{"e":"Start"', '{"e":"End"'))]
         start = open(base + ".trace.setup").readline().rstrip("\n")
         traces = []
+        self.mt_bodies = []
         race = "ThreadSanitizer: data race" in err
         for i in range(len(thread_scripts)):
             tp = "%s.trace.%d" % (base, i)
@@ -215,12 +218,16 @@ class Work:
                         break
                     except ValueError:
                         body.pop()
+            self.mt_bodies.append(list(body))      # the thread's own events, without the setup prefix
             outp = "%s.t%d.ndjson" % (base, i)
             with open(outp, "w") as f:
                 f.write(start + "\n")
                 f.write('{"e":"Reset","name":"%s-t%d"}\n' % (name, i))
                 f.write("\n".join(setup_ev + body) + "\n")
-                if race and i == 0:
+                if serial is not None and complete and result_lines(body) != serial[i]:
+                    f.write('{"e":"Fault","op":"threads","what":"serial-mismatch","sig":0,"inapi":true}\n')
+                    complete = False
+                elif race and i == 0:
                     f.write('{"e":"Fault","op":"threads","what":"race","sig":0,"inapi":true}\n')
                     complete = False
                 elif not complete and not any('"e":"Fault"' in b for b in body[-2:]):
@@ -228,6 +235,11 @@ class Work:
                 f.write('{"e":"End","complete":%s}\n' % ("true" if complete else "false"))
             traces.append(outp)
         return traces, err
+
+
+def result_lines(lines):
+    """What a thread observes: the results of its calls (Ret events) and what its dependencies were asked."""
+    return [l for l in lines if l.startswith(('{"e":"Ret"', '{"e":"Kdf"', '{"e":"Nfc"', '{"e":"Nfkd"', '{"e":"Rand"', '{"e":"Time"'))]
 
 
 # -----------------------------------------------------------------------------------------------
